@@ -69,7 +69,9 @@ impl View {
         format!(
             "towers=[{}] rcpts=[{}] pend=[{}] inval=[{}] bodies=[{}] proofs=[{}]",
             ts.join(";"),
-            j(r.rcpts.keys().map(|(t, l)| format!("{t}/{l}")).collect()),
+            // the receipt stored with a misbehaviour proof is the evidence, not an acceptance (and on the retry
+            // path which locator it belongs to depends on a hash set's iteration order)
+            j(r.rcpts.keys().filter(|(t, l)| r.proofs.get(t).map_or(true, |p| p.0 != *l)).map(|(t, l)| format!("{t}/{l}")).collect()),
             j(r.pend.iter().map(|(t, l)| format!("{t}/{l}")).collect()),
             j(r.inval.iter().map(|(t, l)| format!("{t}/{l}")).collect()),
             j(r.bodies.keys().map(|l| l.to_string()).collect()),
